@@ -39,7 +39,7 @@ const (
 	clntTimerT       = 400 * time.Millisecond
 	clntTimerMargin  = 200 * time.Millisecond
 	clntSerialSleep  = 30 * time.Millisecond
-	clntCtxDeadline0 = 120 * time.Millisecond // the caller's own deadline (doubled on every retry)
+	clntCtxDeadline0 = 200 * time.Millisecond // the caller's own deadline (doubled on every retry)
 	clntCtxMargin    = 40 * time.Millisecond
 )
 
@@ -139,6 +139,7 @@ type clntTransport struct {
 	expiry    time.Duration // t0 + expiry: the total read timer has certainly fired
 	ctx       context.Context
 	ctxEnd    time.Time // the caller's deadline (scripts with a ctx step of kind 2)
+	blocked   bool      // the read that blocks past the timer / the caller's deadline has been reached
 	closed    bool      // Close has been called: SetWriteDeadline / Write are refused
 	serial    bool
 }
@@ -182,6 +183,9 @@ func (t *clntTransport) Read(p []byte) (int, error) {
 		nx := t.sc.steps[t.pos]
 		if nx.ctx == 1 {
 			t.cancel()
+		}
+		if nx.ctx == 2 || nx.timer {
+			t.blocked = true
 		}
 		if nx.ctx == 2 {
 			// block until the caller's own deadline has passed; it must not have passed before
@@ -249,6 +253,8 @@ type clntCase struct {
 	sc      clntScript
 	want    V
 	ops     []clntOp // entry cdoseq: several calls on one client object (conn: the serial port is given)
+	ctor    int      // which public constructor makes the client (see coq/DispClient.v)
+	ctorSet bool     // chosen by the generator; otherwise the streams rotate through the variants
 }
 
 func (c *clntCase) args() V {
@@ -257,7 +263,7 @@ func (c *clntCase) args() V {
 		for i, o := range c.ops {
 			ops[i] = o.val()
 		}
-		return L(I(c.kind), Bool(c.conn), Bool(c.flusher), Bool(c.hooks), L(ops...))
+		return L(I(c.kind), Bool(c.conn), Bool(c.flusher), Bool(c.hooks), L(ops...), I(c.ctor))
 	}
 	rq := L()
 	if c.rq != nil {
@@ -268,9 +274,9 @@ func (c *clntCase) args() V {
 		want = L()
 	}
 	if c.pair {
-		return L(I(c.kind), Bool(c.conn), Bool(c.flusher), rq, c.sc.val(), want)
+		return L(I(c.kind), Bool(c.conn), Bool(c.flusher), rq, c.sc.val(), want, I(c.ctor))
 	}
-	return L(I(c.kind), Bool(c.conn), Bool(c.flusher), Bool(c.hooks), rq, c.sc.val(), want)
+	return L(I(c.kind), Bool(c.conn), Bool(c.flusher), Bool(c.hooks), rq, c.sc.val(), want, I(c.ctor))
 }
 
 func clntProject(resp packet.Response, err error) V {
@@ -329,9 +335,14 @@ type clntClient struct {
 	timeout  time.Duration
 	dialFail bool
 	hung     bool
+	lastResp packet.Response // the response object of the last call, if it returned one
 }
 
-func clntNewClient(kind int, port, flusher, hooks bool, timeout time.Duration) *clntClient {
+// clntCtors: how many constructor variants with a configuration there are for a kind (variant 4,
+// the constructors without configuration, is handled by clntRunBlind)
+var clntCtors = [3]int{4, 3, 3}
+
+func clntNewClient(kind int, port, flusher, hooks bool, timeout time.Duration, ctor int) *clntClient {
 	cc := &clntClient{kind: kind, rec: &clntRec{}, timeout: timeout}
 	cc.tr = &clntTransport{rec: cc.rec, cancel: func() {}, serial: kind == 2}
 	if kind == 2 {
@@ -343,9 +354,25 @@ func clntNewClient(kind int, port, flusher, hooks bool, timeout time.Duration) *
 				p = clntPort{cc.tr}
 			}
 		}
-		opts := []modbus.SerialClientOptionFunc{modbus.WithSerialReadTimeout(timeout)}
+		var h modbus.ClientHooks
 		if hooks {
-			opts = append(opts, modbus.WithSerialHooks(&clntHooks{cc.rec}))
+			h = &clntHooks{cc.rec}
+		}
+		var opts []modbus.SerialClientOptionFunc
+		switch ctor {
+		case 1: // hooks first
+			if hooks {
+				opts = append(opts, modbus.WithSerialHooks(h))
+			}
+			opts = append(opts, modbus.WithSerialReadTimeout(timeout))
+		case 2: // every option twice, the last one counts
+			opts = append(opts, modbus.WithSerialReadTimeout(time.Nanosecond), modbus.WithSerialHooks(&clntHooks{&clntRec{}}))
+			opts = append(opts, modbus.WithSerialHooks(h), modbus.WithSerialReadTimeout(timeout))
+		default:
+			opts = append(opts, modbus.WithSerialReadTimeout(timeout))
+			if hooks {
+				opts = append(opts, modbus.WithSerialHooks(h))
+			}
 		}
 		cc.ser = modbus.NewSerialClient(p, opts...)
 		return cc
@@ -364,10 +391,39 @@ func clntNewClient(kind int, port, flusher, hooks bool, timeout time.Duration) *
 	if hooks {
 		conf.Hooks = &clntHooks{cc.rec}
 	}
+	if ctor%2 == 1 {
+		conf.WriteTimeout = 0 // the default
+	}
+	tcpFuncs := func() {
+		conf.AsProtocolErrorFunc, conf.ParseResponseFunc = packet.AsTCPErrorPacket, packet.ParseTCPResponse
+	}
+	rtuFuncs := func() {
+		conf.AsProtocolErrorFunc, conf.ParseResponseFunc = packet.AsRTUErrorPacketWithCRC, packet.ParseRTUResponseWithCRC
+	}
 	if kind == 0 {
-		cc.net = modbus.NewTCPClientWithConfig(conf)
+		switch ctor {
+		case 1:
+			cc.net = modbus.NewClient(conf) // TCP is the default protocol
+		case 2:
+			tcpFuncs()
+			cc.net = modbus.NewClient(conf)
+		case 3:
+			rtuFuncs() // must be overridden
+			cc.net = modbus.NewTCPClientWithConfig(conf)
+		default:
+			cc.net = modbus.NewTCPClientWithConfig(conf)
+		}
 	} else {
-		cc.net = modbus.NewRTUClientWithConfig(conf)
+		switch ctor {
+		case 1:
+			rtuFuncs()
+			cc.net = modbus.NewClient(conf)
+		case 2:
+			tcpFuncs() // must be overridden
+			cc.net = modbus.NewRTUClientWithConfig(conf)
+		default:
+			cc.net = modbus.NewRTUClientWithConfig(conf)
+		}
 	}
 	return cc
 }
@@ -446,7 +502,20 @@ func (cc *clntClient) do(rq *clntRq, sc clntScript, try int) ([]V, bool) {
 	cc.rec.mu.Lock()
 	cc.rec.ev = nil
 	cc.rec.mu.Unlock()
-	tr.sc, tr.pos, tr.exhausted, tr.late = sc, 0, false, false
+	tr.sc, tr.pos, tr.exhausted, tr.late, tr.blocked = sc, 0, false, false, false
+	callStart := time.Now()
+	// a script whose timer / caller deadline is due at a later step: if the call takes a good part
+	// of that time without reaching the read that is to block, the clock may have decided instead
+	// of the script (the case is run again)
+	budget := time.Duration(0)
+	if d := sc.deadlineStep(); d > 0 {
+		budget = time.Until(ctxEnd) / 2
+	}
+	if sc.hasTimer() && !sc.steps[0].timer {
+		if b := cc.timeout / 3; budget == 0 || b < budget {
+			budget = b
+		}
+	}
 	tr.cancel, tr.ctx, tr.ctxEnd, tr.t0 = cancel, ctx, ctxEnd, time.Now()
 	tr.expiry = cc.timeout + clntTimerMargin
 	if cc.kind == 2 {
@@ -460,6 +529,8 @@ func (cc *clntClient) do(rq *clntRq, sc clntScript, try int) ([]V, bool) {
 		cancel()
 	}
 	var res V
+	var got packet.Response
+	cc.lastResp = nil
 	returned := cc.watch(func() {
 		res = guard(func() V {
 			var resp packet.Response
@@ -469,15 +540,22 @@ func (cc *clntClient) do(rq *clntRq, sc clntScript, try int) ([]V, bool) {
 			} else {
 				resp, err = cc.net.Do(ctx, req)
 			}
+			if err == nil {
+				got = resp
+			}
 			return clntProject(resp, err)
 		})
 	})
 	if !returned {
 		return []V{L(I(98)), L()}, false
 	}
+	if budget > 0 && !tr.blocked && time.Since(callStart) > budget {
+		tr.late = true
+	}
 	if tr.exhausted {
 		return []V{L(I(99)), L()}, tr.late
 	}
+	cc.lastResp = got
 	cc.rec.mu.Lock()
 	defer cc.rec.mu.Unlock()
 	return []V{res, L(cc.rec.ev...)}, tr.late
@@ -494,13 +572,76 @@ func clntTimeoutFor(try int, scripts ...clntScript) time.Duration {
 
 // clntRunOnce: a fresh client object, connected if the case says so, one call
 func clntRunOnce(c *clntCase, hooks bool, try int) ([]V, bool) {
-	cc := clntNewClient(c.kind, c.conn, c.flusher, hooks, clntTimeoutFor(try, c.sc))
+	if c.ctor == 4 {
+		return clntRunBlind(c), false
+	}
+	cc := clntNewClient(c.kind, c.conn, c.flusher, hooks, clntTimeoutFor(try, c.sc), c.ctor)
 	if c.conn && cc.net != nil {
 		if e := cc.net.Connect(context.Background(), "scripted"); e != nil {
 			panic(e)
 		}
 	}
 	return cc.do(c.rq, c.sc, try)
+}
+
+// clntRunBlind: the constructors without configuration (NewTCPClient, NewRTUClient) dial for real.
+// A loopback listener plays the device: it reads the request, then writes the data chunks of the
+// script one by one with short pauses (a quiet step is a pause).  Neither transport calls nor hooks
+// can be observed: the trace is empty by convention.
+func clntRunBlind(c *clntCase) []V {
+	ln, err := net.Listen("tcp", "127.0.0.1:0")
+	if err != nil {
+		panic(err)
+	}
+	defer ln.Close()
+	done := make(chan struct{})
+	defer close(done)
+	reqLen := len(c.rq.req.Bytes())
+	go func() {
+		conn, err := ln.Accept()
+		if err != nil {
+			return
+		}
+		defer conn.Close()
+		if _, err := io.ReadFull(conn, make([]byte, reqLen)); err != nil {
+			return
+		}
+		for _, st := range c.sc.steps {
+			if len(st.data) > 0 {
+				if _, err := conn.Write(st.data); err != nil {
+					return
+				}
+			}
+			time.Sleep(3 * time.Millisecond)
+		}
+		<-done
+	}()
+	var cl *modbus.Client
+	if c.kind == 0 {
+		cl = modbus.NewTCPClient()
+	} else {
+		cl = modbus.NewRTUClient()
+	}
+	cc := &clntClient{}
+	var res V
+	ok := cc.watch(func() {
+		res = guard(func() V {
+			addr := ln.Addr().String()
+			if c.kind == 1 {
+				addr = "tcp://" + addr // both address forms
+			}
+			if e := cl.Connect(context.Background(), addr); e != nil {
+				panic(e)
+			}
+			defer cl.Close()
+			resp, err := cl.Do(context.Background(), c.rq.req)
+			return clntProject(resp, err)
+		})
+	})
+	if !ok {
+		return []V{L(I(98)), L()}
+	}
+	return []V{res, L()}
 }
 
 // ---------- sequences of calls on one client object ----------
@@ -538,9 +679,10 @@ func clntRunSeq(c *clntCase) V {
 		for _, o := range c.ops {
 			scripts = append(scripts, o.sc)
 		}
-		cc := clntNewClient(c.kind, c.conn, c.flusher, c.hooks, clntTimeoutFor(try, scripts...))
+		cc := clntNewClient(c.kind, c.conn, c.flusher, c.hooks, clntTimeoutFor(try, scripts...), c.ctor)
 		out = out[:0]
 		late := false
+		kept := map[int]packet.Response{} // every response object returned, by position
 		for _, o := range c.ops {
 			switch o.what {
 			case 0:
@@ -550,8 +692,28 @@ func clntRunSeq(c *clntCase) V {
 			default:
 				r, l := cc.do(o.rq, o.sc, try)
 				late = late || l
+				if cc.lastResp != nil {
+					kept[len(out)] = cc.lastResp
+				}
 				out = append(out, L(r...))
 			}
+		}
+		// look at every response object again, now that all later calls have been made
+		for i, o := range c.ops {
+			if o.what != 2 {
+				continue
+			}
+			lateV := L()
+			if resp, ok := kept[i]; ok {
+				lateV = guard(func() V {
+					tid, p, re := projResp(resp)
+					if re {
+						return L(I(tid), p, B(resp.Bytes()))
+					}
+					return L(I(tid), p, B(nil))
+				})
+			}
+			out[i] = L(append([]V(out[i].(vList)), lateV)...)
 		}
 		if !late {
 			break
